@@ -13,6 +13,7 @@ CONF = {
     "C05": {"quick": 1600, "thorough": 60000, "batch": 100, "min_distinct": 20, "loops": [1, 2]},
     "C06": {"quick": 1600, "thorough": 60000, "batch": 100, "min_distinct": 20, "loops": [1, 2]},
     "C07": {"quick": 800, "thorough": 40000, "batch": 50, "min_distinct": 20, "loops": [1, 2], "env_alt": [{}, {"GODEBUG": "asynctimerchan=0"}]},
+    "C07X": {"quick": 32, "thorough": 64, "batch": 2, "min_distinct": 1, "loops": [1]},
     "C08": {"quick": 480, "thorough": 20000, "batch": 30, "min_distinct": 20, "loops": [1, 2], "env_alt": [{}, {"GODEBUG": "asynctimerchan=0"}]},
     "C10": {"quick": 480, "thorough": 20000, "batch": 30, "min_distinct": 8, "loops": [1, 1, 2]},
     "C11": {"quick": 160, "thorough": 8000, "batch": 10, "min_distinct": 10, "loops": [1]},
